@@ -56,6 +56,23 @@ fn main() {
             0
         }
         "explore" => explore_named(&args[2..]),
+        "phases" => {
+            use explore::*;
+            for c in e1::phase_cfgs(false).into_iter().chain(e1::c06_cfgs(false)) {
+                let cfg = std::sync::Arc::new(c.clone());
+                let ch = Checks { step: Box::new(e1::noop_step), terminal: Box::new(|s, _| e1::observation(s)) };
+                let th: usize = args[2].parse().unwrap_or(16);
+                let st = explore(&cfg, &ch, &Opts { threads: th, ..Default::default() });
+                println!("{:70} states={} trans={} execs={} terminals={} obs={}", c.name, st.states, st.transitions, st.executions, st.terminals, st.observations.len());
+                if args.len() > 3 {
+                    for (o, n) in &st.observations {
+                        println!("      {} x{}", o, n);
+                    }
+                    println!("      actions {:?}", st.action_counts);
+                }
+            }
+            0
+        }
         _ => usage(),
     };
     let _ = std::fs::remove_dir_all(explore::scratch_root());
